@@ -53,7 +53,7 @@ theorem step_ok_inv {s : Srv} (h : Inv s) (e : Ev) (hw : wf s e = true) :
       | none => exact h0.setBox _ h2
       | some v => exact h0.afterDeliver v hc ht h1
     · have e1 := handleRequest_notMine h0 (s := { s with out := [] }) hc ht
-      obtain ⟨s', e2, p⟩ := handleDisconnect_post (h0.emit (.errorTo c 0)) (c := c) (ts := ts) hc
+      obtain ⟨s', e2, p⟩ := handleDisconnect_post (h0.emit (.errorNow c 0)) (c := c) (ts := ts) hc
       exact ⟨s', by simp only [step]; rw [e1]; exact e2, (h0.emit _).disc p⟩
   | status c t =>
     obtain ⟨ts, hc⟩ := wf_client (by simpa [wf] using hw)
